@@ -57,7 +57,7 @@ CHECKS = {
    text="Every curvature-0 2D symbol over all D-set classes of size <= 5/7 and branching 1..6; every admissible 3D symbol of size <= 3/4 under every relabeling and its dual; the 20 corpus symbols: existence, covering, orientedness, branch-freeness, H1 = Z^2 / Z^3, admissible sheet number, invariance of existence and sheet number, corpus found. Added: covers (4/5 sheets, 12/15 chambers) of the small symbols that have a cover, prisms over all euclidean 2D symbols of size <= 4/5.",
    note="Trusts R1, R6, R11 and the definition-based sphericity test for tiles and vertex figures.", ref="3/C15"),
  "C16": dict(tech="bounded exhaustive enumeration of inputs x deviation-bounded exhaustive exploration (bound 1; 2 on small inputs at the thorough tier) of the hash-order choice point in simplify through a cfg hook; every schedule replayed for determinism",
-   text="Pseudo-toroidal covers of all admissible symbols of size <= 3/4 and of the corpus, Coxeter manifold tilings and manifold covers with finite group, under systematic renumberings; for every explored schedule: result validity as a manifold tiling, preserved H1 and subgroup profile where the statement demands it, reducedness on pseudo-toroidal covers, and one minimal-quotient class for the corpus across renumberings and schedules. Added: manifold covers of small symbols with finite group (lens spaces), duals of the corpus, 2-sheeted covers of the corpus's pseudo-toroidal covers (to 576/1200+ chambers), one recorded 192-chamber input (known finding).",
+   text="Pseudo-toroidal covers of all admissible symbols of size <= 3/4 and of the corpus, Coxeter manifold tilings and manifold covers with finite group, under systematic renumberings; for every explored schedule: result validity as a manifold tiling, preserved H1 and subgroup profile where the statement demands it, reducedness on pseudo-toroidal covers, and one minimal-quotient class for the corpus across renumberings and schedules. Added: manifold covers of small symbols with finite group (lens spaces), duals of the corpus, 2-sheeted covers of the corpus's pseudo-toroidal covers (to 576/1200+ chambers), the recorded 192-chamber numbering and six affine renumberings of the same 3-torus cover (a repaired defect: simplify lost the torus).",
    note="Trusts R1, R6, R11, the choice hook (sorted candidates, every candidate reachable by some hash order) and, for the index-2/3 subgroup profile, the crate's presentation + low-index enumeration (C09/C12).", ref="3/C16"),
  "C17": dict(tech="bounded exhaustive enumeration of admissible 3D symbols x deviation-bounded exhaustive exploration (bound 1) of the simplify choice point; verdict invariance over relabelings, dual and verified covers; independent re-derivation of every yes",
    text="Every admissible 3D symbol of size <= 3/4 and the corpus: a verdict under every schedule with <= 1 deviation, equal verdict class for all relabelings and the dual, no yes/no contradiction with any verified cover of <= 2/3 sheets, certificate of every yes (finite oriented branch-free cover, H1 = Z^3, 7/13 subgroup classes), corpus = yes. Added: covers with up to 4/6 sheets above every yes, prisms, breadth-first search down the subgroup lattice below the corpus.",
@@ -109,7 +109,7 @@ m = {
     "kind_free_text": "Rust harness: G1 sharded bounded-exhaustive enumeration runner with lock-step reference models (16 worker subprocesses, watchdog, abort attribution, replay files); G2 explicit-state search with stateright 0.31 over real objects; G3 deviation-bounded exploration of the simplify choice point"},
  ],
  "checks": checks,
- "notes": "Every check: exit 0 = held on everything explored, 1 = VIOLATION line(s) with a replay file, 2 = machinery failure (no verdict). Known findings: /verif/known_findings.json (entries with status 'fixed' suppress nothing; the three entries with status 'known' - two dense i64 matrices for C18, one 192-chamber numbering for C16 - make the check print a KNOWN-FINDING line and exit 0; the file is never written at run time). VERIF_SEED only permutes which worker runs which case.",
+ "notes": "Every check: exit 0 = held on everything explored, 1 = VIOLATION line(s) with a replay file, 2 = machinery failure (no verdict). Known findings: /verif/known_findings.json (entries with status 'fixed' suppress nothing; the two entries with status 'known' - two dense i64 matrices for C18 - make the check print a KNOWN-FINDING line and exit 0; the file is never written at run time). VERIF_SEED only permutes which worker runs which case.",
  "not_applicable": na,
 }
 json.dump(m, open('/verif/MANIFEST.json', 'w'), indent=1)
